@@ -308,9 +308,20 @@ def check_obligations(chk, spec):
                     if not chk.obligations[t][0]:
                         broken.append(t)
             else:
+                # the module does not compile: name the declarations Lean rejected (root causes); the other theorems of
+                # the module are not re-checked in this run (no .olean), which is recorded per obligation, but only the
+                # root causes are reported as violations
+                roots = build_error_roots(out, mod, theorems)
                 for t in theorems:
-                    chk.obligations[t] = (False, "module does not build: " + tail_err(out))
-                    broken.append(t)
+                    if t in roots or not roots:
+                        chk.obligations[t] = (False, "module does not build: " + (roots.get(t) or tail_err(out)))
+                        broken.append(t)
+                    else:
+                        chk.obligations[t] = (False, "not re-checked: the module does not build because of " + ", ".join(sorted(roots)))
+                for r, msg in roots.items():
+                    if r not in theorems:
+                        chk.obligations[r] = (False, "module does not build: " + msg)
+                        broken.append(r)
         else:
             for t in theorems:
                 chk.obligations[t] = (False, "module missing")
@@ -324,6 +335,31 @@ def crash_site(stderr):
     head = m.group(1) if m else "exit"
     m2 = re.search(r"go\.flow\.arcalot\.io/engine/[\w/]+\.(\(?\*?\w+\)?\.?\w+)", stderr)
     return (head[:80] + " @ " + (m2.group(1) if m2 else "?")).replace(" ", "_")
+
+
+def build_error_roots(out, mod, theorems):
+    """Map the `error: <file>:<line>:<col>: msg` lines of a failed `lake build` to the declarations that contain them.
+    Returns {obligation name: message}; a declaration that is not a listed theorem is named <module>:<decl>."""
+    import re
+    roots = {}
+    short = {t.split(".")[-1]: t for t in theorems}
+    for m in re.finditer(r"error: (?:\./)?(\S+?\.lean):(\d+):(\d+): ([^\n]*)", out):
+        rel, line, msg = m.group(1), int(m.group(2)), m.group(4)
+        path = rel if os.path.isabs(rel) else os.path.join(vcheck.LEAN, rel)
+        decl = None
+        try:
+            src = open(path).read().splitlines()
+            for i in range(min(line, len(src)) - 1, -1, -1):
+                dm = re.match(r"\s*(?:@\[[^\]]*\]\s*)?(?:private\s+|protected\s+)?(theorem|lemma|def|abbrev|instance|example|structure|inductive)\s*(\S*)", src[i])
+                if dm:
+                    decl = dm.group(2) if dm.group(1) != "example" and dm.group(2) else "example@%d" % (i + 1)
+                    break
+        except OSError:
+            pass
+        module = os.path.splitext(os.path.relpath(path, vcheck.LEAN))[0].replace(os.sep, ".")
+        name = short.get(decl) if (module == mod and decl in short) else "%s:%s" % (module, decl or "line%d" % line)
+        roots.setdefault(name, "%s:%d: %s" % (rel, line, msg[:300]))
+    return roots
 
 
 def tail_err(out):
